@@ -34,13 +34,20 @@ Answer: `ante=<pass|rej> res=<ok|rej> verdict=<fine|violation>`; governance auth
 Directed multi-step histories; the driver is stateless between lines, so ONE line carries a whole
 history which the model replays from the empty state:
 
-  dnh <namesake> <step> <step> …     with <step> = <kind>;<route>;<signer>;<creator>;<grant 0|1>;<newAdmin|->
+  dnh <namesake> <foreign> <step> <step> …
+      with <step> = <kind>;<route>;<signer>;<creator>;<grant 0|1>;<arg>;<denom 1|2>
 
-one token-factory denom named after `namesake`; `kind` = create | chadmin | mint | burn | setmeta |
-bind (the last four are admin-gated writes); `route` = t (signed transaction) | w (wasm binding:
-the contract is signer and creator); `grant` = the creator has granted the signer a fee allowance;
-`newAdmin` 0 = renounce.  Answer: `<ok|rej>:<admin after the step, 0 = none>` per step, comma
-separated (`dDeliver` / `dAccepted`).
+two token-factory denoms: 1 named after `namesake`, 2 named after `foreign`; `denom` = the denom the
+step's message names (its `denom` field); `kind` = create | chadmin | mint | burn | setmeta | bind
+(mint / burn / bind: admin-gated writes); `route` = t (signed transaction) | w (wasm binding: the
+contract is signer and creator); `grant` = the creator has granted the signer a fee allowance;
+`arg`: chadmin: the new admin (0 = renounce); setmeta: the denom spelled in `metadata.base` (0 = "",
+1 | 2, 9 = a string that is neither; by transaction `base` IS the denom); create: `-`, or through
+the binding `m<base>` = `create_denom` carrying metadata with that base; otherwise `-`.
+`reimport;-;0;0;0;-;0` = the chain is exported and started again from the export (token factory).
+Answer per step, comma separated: `<ok|rej>:<admin of 1>/<meta of 1>:<admin of 2>/<meta of 2>` after
+the step (admin 0 = none; meta `-` no record, `d` the default bank record, `c` a custom one)
+(`dDeliver` / `dAccepted` / `dReimport`).
 
   cbh <validator:key,…> <step> <step> …   with <step> = <signer>;<creator>;<grant>;<orchestrator>;<ethSigner>;<sigKey>;<target b|n>;<item b|o|w>;<form 0|27>
 
@@ -59,7 +66,8 @@ light-node licences and client records; step number i (from 1) is the block time
 `arg` an allowance: a legacy node; signer = creator = feegranter) | lic (MsgAddLightNodeClientLicense
 for `arg`) | reg | auth | legacy (MsgSetLegacyLightNodeClients) — the last four are transactions
 signed by `signer` in `creator`'s name, `grant` = the creator has granted the signer an allowance
-(`arg` = 0 where unused).  Answer: `<ok|rej>,…|<principal>:<activated>/<lastAuth>/<licence 0|1>,…`
+(`arg` = 0 where unused); `reimport;0;0;0;0` = the chain is exported and started again from the
+export (paloma module; `lReimport`).  Answer: `<ok|rej>,…|<principal>:<activated>/<lastAuth>/<licence 0|1>,…`
 = result per step and, for every light-node principal named in the line (ids from 31, ascending;
 lower ids are accounts that exist before the history), its client record (`-` = none) and whether
 a licence is pending (`lDeliver` / `lAccepted` / `lStep`).
@@ -122,47 +130,76 @@ def stepMulti (sc txs gs vi h chg : String) (toks : List String) : String :=
   | _, _, _, _ => "bad-op"
 
 
-/-! ### `dnh`: one denom, handed around -/
+/-! ### `dnh`: two denoms, handed around -/
 
 structure DStepTok where
-  act : DAct
+  /-- `none`: a chain export / import -/
+  act : Option DAct
   signer : Nat
   creator : Nat
   grant : Bool
+  denom : Nat
 
 def parseDStep? (tok : String) : Option DStepTok :=
   match tok.splitOn ";" with
-  | [kind, route, sg, cr, g, na] => do
+  | [kind, route, sg, cr, g, na, dn] => do
     let signer ← parseNat? sg
     let creator ← parseNat? cr
     let grant ← if g == "0" then some false else if g == "1" then some true else none
+    let denom ← parseNat? dn
+    if kind == "reimport" then
+      if route == "-" && na == "-" && denom == 0 && signer == 0 && creator == 0 && !grant then
+        pure { act := none, signer, creator, grant, denom }
+      else none
+    else
+    if denom == 1 || denom == 2 then pure () else none
+    let baseOf : String → Option (Option Nat) := fun b =>
+      (parseNat? b).bind fun n => if n == 0 then some none else if n == 1 || n == 2 || n == 9 then some (some n) else none
     let act ← match kind with
-      | "create" => if na == "-" then some DAct.create else none
+      | "create" =>
+        if na == "-" then some DAct.create
+        -- only the wasm binding `create_denom` can carry metadata
+        else if route == "w" && na.startsWith "m" then (baseOf (na.drop 1).toString).map DAct.createMeta
+        else none
       | "chadmin" => (parseNat? na).map fun n => DAct.changeAdmin (if n == 0 then none else some n)
-      | "mint" | "burn" | "setmeta" | "bind" => if na == "-" then some DAct.write else none
+      | "mint" | "burn" | "bind" => if na == "-" then some DAct.write else none
+      | "setmeta" =>
+        -- `MsgSetDenomMetadata` has one denom field only: `metadata.base`
+        if route == "t" then (if parseNat? na == some denom then some (DAct.setMeta (some denom)) else none)
+        else (baseOf na).map DAct.setMeta
       | _ => none
     -- through the wasm bindings the contract is signer and creator, and holds no grant
     if route == "w" then (if signer == creator && !grant then pure () else none)
     else if route == "t" then pure () else none
-    pure { act, signer, creator, grant }
+    pure { act := some act, signer, creator, grant, denom }
   | _ => none
 
-def stepDenomHistory (namesake : String) (toks : List String) : String :=
-  match parseNat? namesake, toks.mapM parseDStep? with
-  | some c, some steps =>
+def showDenom (s : DState) (d : Nat) : String :=
+  let adm := match s.den d with
+    | some (some a) => a
+    | _ => 0
+  let m := if s.dmeta d > 0 then "c" else if (s.den d).isSome then "d" else "-"
+  s!"{adm}/{m}"
+
+def stepDenomHistory (namesake foreign : String) (toks : List String) : String :=
+  match parseNat? namesake, parseNat? foreign, toks.mapM parseDStep? with
+  | some c, some f, some steps =>
     if steps.isEmpty then "bad-op" else
-    let namer : Nat → Addr := fun _ => c
+    -- denom 1 is named after `c`, denom 2 after `f`; 9 stands for a string that is neither
+    let namer : Nat → Addr := fun d => if d == 2 then f else if d == 1 then c else 0
     let (_, outs) := steps.foldl (fun (acc : DState × List String) st =>
-      let s : DState := { acc.1 with grants := fun g e => st.grant && g == st.creator && e == st.signer }
-      let m : DMsg := { signers := [st.signer], creator := st.creator, denom := 1, act := st.act }
-      let ok := dAccepted namer s m
-      let s' := dDeliver namer s m
-      let adm := match s'.den 1 with
-        | some (some a) => a
-        | _ => 0
-      (s', acc.2 ++ [s!"{if ok then "ok" else "rej"}:{adm}"])) (dInit, [])
+      match st.act with
+      | none =>
+        let s' := dStep namer acc.1 .reimport
+        (s', acc.2 ++ [s!"ok:{showDenom s' 1}:{showDenom s' 2}"])
+      | some act =>
+        let s : DState := { acc.1 with grants := fun g e => st.grant && g == st.creator && e == st.signer }
+        let m : DMsg := { signers := [st.signer], creator := st.creator, denom := st.denom, act := act }
+        let ok := dAccepted namer s m
+        let s' := dDeliver namer s m
+        (s', acc.2 ++ [s!"{if ok then "ok" else "rej"}:{showDenom s' 1}:{showDenom s' 2}"])) (dInit, [])
     ",".intercalate outs
-  | _, _ => "bad-op"
+  | _, _, _ => "bad-op"
 
 /-! ### `cbh`: confirmation attempts on one batch -/
 
@@ -224,7 +261,8 @@ def parseLStep? (tok : String) : Option LStepTok :=
     let creator ← parseNat? cr
     let grant ← if g == "0" then some false else if g == "1" then some true else none
     let arg ← parseNat? a
-    if ["sale", "lgrant", "lic", "reg", "auth", "legacy"].contains kind then pure () else none
+    if ["sale", "lgrant", "lic", "reg", "auth", "legacy"].contains kind then pure ()
+    else if kind == "reimport" && signer == 0 && creator == 0 && !grant && arg == 0 then pure () else none
     pure { kind, signer, creator, grant, arg }
   | _ => none
 
@@ -245,6 +283,8 @@ def stepLightHistory (fg accs : String) (toks : List String) : String :=
         (s', acc.2.1 ++ [if s'.licence st.arg && !s0.licence st.arg then "ok" else "rej"], now + 1)
       else if st.kind == "lgrant" then
         (lStep F s0 (.grant F st.arg), acc.2.1 ++ ["ok"], now + 1)
+      else if st.kind == "reimport" then
+        (lReimport s0, acc.2.1 ++ ["ok"], now + 1)
       else
         let act : LAct := if st.kind == "lic" then .addLicence st.arg else if st.kind == "reg" then .register
           else if st.kind == "auth" then .auth else .setLegacy
@@ -267,7 +307,7 @@ def stepLightHistory (fg accs : String) (toks : List String) : String :=
 def step (args : List String) : String :=
   match args with
   | "lnh" :: fg :: accs :: toks => stepLightHistory fg accs toks
-  | "dnh" :: namesake :: toks => stepDenomHistory namesake toks
+  | "dnh" :: namesake :: foreign :: toks => stepDenomHistory namesake foreign toks
   | "cbh" :: keys :: toks => stepConfirmHistory keys toks
   | "mtx" :: sc :: txs :: gs :: vi :: h :: chg :: toks => stepMulti sc txs gs vi h chg toks
   | ["tx", typ, sc, txs, ms, cr, af, gs, vi, red, h, chg] =>
